@@ -47,8 +47,8 @@ CHECKS = {
    note="panic classes are recognised by the documented phrases (unknown wording is compared as panic/no panic only); report() on a clone is not generated"),
  "C10": dict(engine="E3 controlled scheduler (harness/rt/src/sched.rs)", cat="exploration", ref="§4 C10",
    technique="schedule enumeration and schedule fuzzing of the real code: a token-passing scheduler driven by yield hooks at every atomic operation and lock acquisition; exhaustive depth-first enumeration for small thread configurations, proptest-generated choice sequences for larger ones, 16-thread stress; threads call through clones or one shared &Unimock, with and without the constructing thread itself taking part; oracle = multiset of responses equals positions 1..N of the sequential reference model",
-   text="The real runtime runs on real OS threads, one at a time, the next thread being chosen at every yield point by a schedule (a Vec<u8>, which is also the replay file). All schedules of (threads x calls) in {(2,1),(2,2),(3,1),(2,3)} (thorough: also (3,2),(4,1)) are enumerated for an unordered response chain, an ordered sequence (as many slots as calls, and one fewer) and both mixed, each through clones and through one shared &Unimock handle; larger configurations are sampled; a 16-thread unsynchronised stress run repeats the oracle.",
-   note="yield points exist only at unimock's own atomics and lock acquisitions (cfg unimock_verif); sequentially consistent interleavings only; std::sync::Mutex / Arc internals are trusted"),
+   text="The real runtime runs on real OS threads, one at a time, the next thread being chosen at every yield point by a schedule (a Vec<u8>, which is also the replay file). All schedules of (threads x calls) in {(2,1),(2,2),(3,1),(2,3)} (thorough: also (3,2),(4,1)) are enumerated for an unordered response chain, an ordered sequence (as many slots as calls, and one fewer) and both mixed, each through clones and through one shared &Unimock handle; larger configurations are sampled; a 16-thread unsynchronised stress run repeats the oracle. lent-answers: all schedules of 2 threads x 1-2 calls (thorough: 3x1, 2x3; sampled 2-4 x 2-3) answered through make_ref on one shared &Unimock, optionally racing for the delegation helper through a provided method: every call must read the value made for it at an address of its own, and teardown after join must be silent.",
+   note="yield points exist only at unimock's own atomics, lock acquisitions and OnceCell operations (value-chain cells, delegator cell) (cfg unimock_verif); sequentially consistent interleavings only; std::sync::Mutex / Arc internals are trusted"),
  "C11": dict(engine="E4 fault table: worker thread + fresh child process per cell (harness/rt)", cat="fault_enumeration", ref="§4 C11",
    technique="fault enumeration: panic origin x instance topology x expectation state, every cell run on a thread of a crash-isolated worker and as the main thread of a fresh child process; oracle = exit status 101 (not SIGABRT), exactly one panic report, first message is the origin's",
    text="17 panic origins (test body before/between/after calls, matcher, answer, unmock function, default body, by-value default body, argument Debug, return-value Clone, 7 mock-induced kinds) x 11 instance topologies (original only, clone dropped before/after, clone alive on another thread, Rc/Arc/Box, foreign thread, helper clone alive, value chain holding a clone, call through a clone) x met/unmet x error recorded before: all 680 cells are executed both ways; the thread boundary / process must report exactly the original panic and must not abort.",
@@ -60,7 +60,7 @@ CHECKS = {
  "C13": dict(engine="value-chain shadow model in a crash-isolated worker (harness/rt)", cat="exploration", ref="§4 C13",
    technique="stateful property-based testing: generated lending sequences with a shadow list of (address, id, contents) and a drop registry; long-chain and multi-thread cases; crash-isolated worker with a small stack to expose recursive drops",
    text="Phases of lending operations (make_ref of several types, answers using make_ref, returns()-configured borrows, borrows through the delegation helper, bursts, lent values owning a clone of their instance) over original and clones, closed by make_mut / a make_mut-answered &mut return / a provided &mut self method that lends nothing (nothing may be released) / a provided &mut self method whose body lends through the helper, then 2-8 threads lending through a shared &Unimock, then teardown: every reference held is re-read after every operation, addresses of make_ref values are pairwise distinct, nothing is dropped early, everything is dropped exactly once. Chains of 5k-51k values are dropped on a 256 KiB stack.",
-   note="references are held in safe Rust; concurrent interleavings inside once_cell are real-thread stress only (not scheduled)"),
+   note="references are held in safe Rust; scheduled-lent-answers: every schedule (yield points at the value-chain cells) of 2 threads lending through one shared &Unimock, sampled for 2-4 threads (C10's engine); interleavings inside once_cell itself are trusted"),
 
  "C05": dict(engine="E2 program generation (harness/progen)", cat="exploration", ref="§4 C05",
    technique="grammar-based program generation (proptest strategy over trait ASTs) -> generated crate -> observations vs generator-side expectation, manual shrinking across the compile boundary",
@@ -138,7 +138,7 @@ def main():
              "kind_free_text": "stateful generators executed in crash-isolated worker processes (vcore::worker) or fresh child processes; lifecycle / shadow-list / conservation oracles"},
             {"name": "E2", "path": "harness/progen", "serves_properties": ["C05", "C06", "C15", "C16", "C17", "C19"],
              "kind_free_text": "proptest strategies over program ASTs -> generated crate under harness/work (path-depends on /repo) -> cargo build -> observation lines -> comparison with generator-side expectations; manual ValueTree shrinking, one rebuild per step"},
-            {"name": "E3", "path": "harness/rt/src/sched.rs", "serves_properties": ["C10", "C12", "C08"],
+            {"name": "E3", "path": "harness/rt/src/sched.rs", "serves_properties": ["C10", "C12", "C08", "C02", "C13"],
              "kind_free_text": "token-passing scheduler over the yield hook; exhaustive DFS over schedules or proptest-generated schedules"},
         ],
         "checks": checks,
